@@ -44,7 +44,7 @@ For each change deliver, in {out}/m1/, {out}/m2/, {out}/m3/:
  - patch.diff : `git -C {wt} diff` of the change (must apply with `git apply` to a clean checkout of the pinned commit);
  - demo.py    : a self-contained demonstration program for {interp}: exits 0 on the CLEAN tree and non-zero WITH the patch, deterministically (force the needed interleaving/crash with events, monkeypatched hooks, custom backends, subprocess kills ... rather than hoping for timing; a few retries are fine if something is inherently racy); runs in under 60 s; imports joblib from PYTHONPATH (it will be run as `cd <worktree> && PYTHONPATH=<worktree> <interpreter> demo.py`); if it needs the worktree path use the literal `{wt}`; it must print what it observed;
  - meta.json  : {{"summary": what the change does and its plausible rationale, "violated_clause": which part of the property breaks and how, "needs": what is needed for it to manifest, "files": [changed files], "tests_run": exact commands and results}}.
-Confirm yourself: demo exit 0 on clean tree (after `git -C {wt} checkout -- .`), non-zero with the patch; tests pass with the patch. Restore the worktree to clean (`git -C {wt} checkout -- .`, remove untracked files you created) after each change and at the end. Keep scratch files under {out}/ or {wt} only. Do not run anything that needs the network.
+Confirm yourself: demo exit 0 on clean tree (after `git -C {wt} checkout -- .`), non-zero with the patch; tests pass with the patch. Restore the worktree to clean (`git -C {wt} checkout -- .`, remove untracked files you created) after each change and at the end. Keep scratch files under {out}/ or {wt} only. Do not run anything that needs the network. NEVER use `git stash` (the stash is shared by all worktrees of the repository and other agents work in sibling worktrees): switch between clean and patched with `git apply <patch>` / `git apply -R <patch>` / `git checkout -- .` only.
 
 Do NOT repeat these ideas, which were already used in earlier rounds:
 {chr(10).join(earlier) if earlier else '(none)'}
